@@ -81,6 +81,17 @@ func c17B12(l *core.Ledger, g *gen.Generator) {
 	okCond := func(c ast.Expr) bool {
 		ok := false
 		ast.Inspect(c, func(m ast.Node) bool {
+			// the file's services, as a selector or through a local that is named after them
+			switch y := m.(type) {
+			case *ast.SelectorExpr:
+				if y.Sel.Name == "Services" {
+					ok = true
+				}
+			case *ast.Ident:
+				if strings.Contains(strings.ToLower(y.Name), "service") || strings.Contains(strings.ToLower(y.Name), "method") {
+					ok = true
+				}
+			}
 			ce, isCall := m.(*ast.CallExpr)
 			if !isCall {
 				return true
